@@ -248,6 +248,7 @@ func runProp(prop string) int {
 					continue
 				}
 				calls := false
+				calleeWide := ""
 				for _, b := range f.Blocks {
 					for _, in := range b.Instrs {
 						if ci, ok := in.(ssa.CallInstruction); ok {
@@ -258,6 +259,9 @@ func runProp(prop string) int {
 								}
 								if need[k] {
 									calls = true
+									if w := P.CS.Funcs[k].Opts["wide"]; w != "" && (calleeWide == "" || len(w) > len(calleeWide) || len(w) == len(calleeWide) && w > calleeWide) {
+										calleeWide = w
+									}
 								}
 							}
 						}
@@ -270,6 +274,10 @@ func runProp(prop string) int {
 				con := P.CS.Funcs[key]
 				if con == nil {
 					con = &Contract{Kind: "func", Name: f.RelString(f.Pkg.Pkg), Pkg: f.Pkg.Pkg.Path(), Mode: "bv", LoopInv: map[int][]*Clause{}, LoopDec: map[int]*Clause{}, LoopMod: map[int][]string{}, Opts: map[string]string{}}
+					if calleeWide != "" {
+						// the callee's precondition is stated over its spec-integer width
+						con.Opts["wide"] = calleeWide
+					}
 				}
 				todo[f] = con
 				order = append(order, f)
@@ -339,6 +347,9 @@ func runProp(prop string) int {
 				}
 			}()
 			c.run()
+			if c.err == nil {
+				c.addRelevantAxioms(c.entry)
+			}
 		}()
 		if c.err != nil {
 			// The contracts bind on the unchanged tree; a binding failure here means the code
